@@ -36,7 +36,7 @@
 (***************************************************************************)
 EXTENDS TimingLines
 
-CONSTANTS MaxObjs, TimesSet, EmitPost, Profile
+CONSTANTS MaxObjs, TimesSet, EmitPost, Profile, SortedBreakEnds
 
 \* ---- inputs ---------------------------------------------------------------------
 TL(tau, unin, bl, bank, vol, cu) ==
@@ -87,8 +87,10 @@ WideSeqs(n, s) == IF n = 0 THEN {<<>>}
                             q \in WideSeqs(n - 1, s), o \in ObjKinds, t \in ObjTimes}
 ObjChoices == IF Profile = "wide" THEN UNION {WideSeqs(MaxObjs, s) : s \in ObjSamples} ELSE ObjSeqs(MaxObjs)
 
-BreakChoices == IF TimesSet = "tiny" THEN { <<>>, <<<<100, 999>>, <<1200, 1999>>>>, <<<<1000, 1000>>>> }
-                ELSE { <<>>, <<<<500, 900>>>>, <<<<100, 999>>, <<1200, 1999>>>>, <<<<1000, 1000>>>>, <<<<-800, -501>>>> }
+\* (the last list of each set is NOT in chronological order: the statement does not ask the file for that)
+BreakChoices == IF TimesSet = "tiny" THEN { <<>>, <<<<100, 999>>, <<1200, 1999>>>>, <<<<1000, 1000>>>>, <<<<1001, 1003>>, <<100, 999>>>> }
+                ELSE { <<>>, <<<<500, 900>>>>, <<<<100, 999>>, <<1200, 1999>>>>, <<<<1000, 1000>>>>, <<<<-800, -501>>>>,
+                       <<<<1001, 1003>>, <<100, 999>>>> }
 SMChoices == IF Profile = "wide" THEN {1000} ELSE {500, 2000}      \* slider multiplier in thousandths
 ModeChoices == IF Profile = "wide" THEN (IF TimesSet = "tiny" THEN {"taiko", "catch"} ELSE {"osu", "taiko", "catch", "mania"})
                ELSE {"osu", "mania"}
@@ -114,16 +116,23 @@ InsertSorted(l, o) == IF l = <<>> THEN <<o>>
 RECURSIVE SortStable(_, _)
 SortStable(l, acc) == IF l = <<>> THEN acc ELSE SortStable(Tail(l), InsertSorted(acc, Head(l)))
 
-\* post_process_breaks: a break whose end lies before the object forces a new combo on it
-RECURSIVE Sweep(_, _, _, _)
-Sweep(objs, brks, cur, acc) ==
+\* post_process_breaks: a break whose end lies before the object forces a new combo on it.  The sweep walks the
+\* break END TIMES in ascending order (SortedBreakEnds = TRUE, the code since its repair); with FALSE it walks the
+\* breaks in file order, as the pinned code did - which misses a break listed after a later one.
+InsertEnd(l, e) == LET RECURSIVE I(_) I(r) == IF r = <<>> THEN <<e>> ELSE IF Head(r) <= e THEN <<Head(r)>> \o I(Tail(r)) ELSE <<e>> \o r IN I(l)
+RECURSIVE SortEnds(_, _)
+SortEnds(brks, acc) == IF brks = <<>> THEN acc ELSE SortEnds(Tail(brks), InsertEnd(acc, Head(brks)[2]))
+BreakEnds(brks) == IF SortedBreakEnds THEN SortEnds(brks, <<>>) ELSE [j \in 1..Len(brks) |-> brks[j][2]]
+RECURSIVE SweepEnds(_, _, _, _)
+SweepEnds(objs, ends, cur, acc) ==
     IF objs = <<>> THEN acc ELSE
     LET h == Head(objs)
         RECURSIVE Adv(_)
-        Adv(c) == IF c <= Len(brks) /\ brks[c][2] < h.t THEN Adv(c + 1) ELSE c
+        Adv(c) == IF c <= Len(ends) /\ ends[c] < h.t THEN Adv(c + 1) ELSE c
         c2 == Adv(cur)
         force == c2 > cur
-    IN Sweep(Tail(objs), brks, c2, Append(acc, IF h.k = "hold" THEN h ELSE [h EXCEPT !.nc = @ \/ force]))
+    IN SweepEnds(Tail(objs), ends, c2, Append(acc, IF h.k = "hold" THEN h ELSE [h EXCEPT !.nc = @ \/ force]))
+Sweep(objs, brks, cur, acc) == SweepEnds(objs, BreakEnds(brks), cur, acc)
 
 \* the samples of an object as PARSED (SampleBankInfo::convert_sound_type): the normal sample (or
 \* the file sample), then one addition per hit-sound bit in the order finish, whistle, clap
